@@ -233,17 +233,65 @@ theorem wX2_swap0 (ry rx i j : Nat) : wX2 [rx, ry] 0 [j, i] = wX2 [ry, rx] 1 [i,
 theorem wX2_swap1 (ry rx i j : Nat) : wX2 [rx, ry] 1 [j, i] = wX2 [ry, rx] 0 [i, j] := by
   simp [wX2]
 
-/-- `cos 2θ` changes sign when the two axes are exchanged — the centre pixel included only because
-its weight is 0 -/
-theorem wCos_swap (ry rx i j : Nat) : wCos [rx, ry] [j, i] = - wCos [ry, rx] [i, j] := by
-  simp only [wCos, List.getD_cons_zero, List.getD_cons_succ, centreCos]
+/-- `cosmask` with an arbitrary weight `w` for the centre pixel (`wCos` is the case `w = centreCos`,
+the code's `cos(2·atan2(0,0)) = 1`; the repaired `cosmask` of repo-fixes/ has `w = 0`) -/
+def wCosW (w : Rat) (radius : List Nat) (off : List Nat) : Rat :=
+  let y : Int := rel (radius.getD 0 0) (off.getD 0 0)
+  let x : Int := rel (radius.getD 1 0) (off.getD 1 0)
+  if x = 0 ∧ y = 0 then w else ((x * x - y * y : Int) : Rat) / ((x * x + y * y : Int) : Rat)
+
+theorem wCosW_centreCos : wCosW centreCos = wCos := rfl
+
+/-- away from the centre pixel `cos 2θ` changes sign when the two axes are exchanged; the centre
+pixel keeps its weight `w` -/
+theorem wCosW_swap (w : Rat) (ry rx i j : Nat) :
+    wCosW w [rx, ry] [j, i] =
+      - wCosW w [ry, rx] [i, j] + (if [i, j] = [ry, rx] then 2 * w else 0) := by
+  simp only [wCosW, List.getD_cons_zero, List.getD_cons_succ]
+  have hc : (rel rx j = 0 ∧ rel ry i = 0) ↔ [i, j] = [ry, rx] := by
+    simp only [rel, List.cons.injEq, and_true]
+    constructor
+    · rintro ⟨h1, h2⟩; exact ⟨by omega, by omega⟩
+    · rintro ⟨h1, h2⟩; subst h1; subst h2; exact ⟨by omega, by omega⟩
   by_cases h : rel rx j = 0 ∧ rel ry i = 0
-  · rw [if_pos h, if_pos ⟨h.2, h.1⟩]; simp
-  · rw [if_neg h, if_neg (fun hh => h ⟨hh.2, hh.1⟩)]
+  · rw [if_pos h, if_pos ⟨h.2, h.1⟩, if_pos (hc.mp h)]; ring
+  · rw [if_neg h, if_neg (fun hh => h ⟨hh.2, hh.1⟩), if_neg (fun hh => h (hc.mpr hh)), add_zero]
     push_cast
     rw [add_comm (((rel ry i : Int) : Rat) * _), ← neg_div]
     congr 1
     ring
+
+/-- the sum over a duplicate-free list of a function supported on one of its elements -/
+theorem sum_single {α} [DecidableEq α] (l : List α) (a : α) (f : α → Rat) (hn : l.Nodup)
+    (ha : a ∈ l) : (l.map (fun x => if x = a then f x else 0)).sum = f a := by
+  induction l with
+  | nil => simp at ha
+  | cons y l ih =>
+    rw [List.nodup_cons] at hn
+    simp only [List.map_cons, List.sum_cons]
+    rcases List.mem_cons.mp ha with rfl | ha'
+    · have hz : (l.map (fun x => if x = a then f x else 0)).sum = 0 := by
+        apply List.sum_eq_zero
+        intro v hv
+        obtain ⟨x, hx, rfl⟩ := List.mem_map.mp hv
+        rw [if_neg (fun (e : x = a) => hn.1 (e ▸ hx))]
+      simp [hz]
+    · rw [if_neg (fun (e : y = a) => hn.1 (e ▸ ha')), zero_add]
+      exact ih hn.2 ha'
+
+/-- the centre pixel enters a mask sum exactly once -/
+theorem wsum_centre (img : Image) (ry rx : Nat) (org : List Int) (v : Rat) :
+    wsum img (maskOffsets [ry, rx]) org (fun off => if off = [ry, rx] then v else 0) =
+      v * ((img (addOff org [ry, rx]) : Nat) : Rat) := by
+  unfold wsum
+  have := sum_single (maskOffsets [ry, rx]) [ry, rx]
+    (fun off => v * ((img (addOff org off) : Nat) : Rat)) ((boxOffsets_nodup _).filter _)
+    (centre_mem_maskOffsets [ry, rx])
+  rw [← this]
+  congr 1
+  apply List.map_congr_left
+  intro off _
+  by_cases h : off = [ry, rx] <;> simp [h]
 
 theorem wSin_swap (ry rx i j : Nat) : wSin [rx, ry] [j, i] = wSin [ry, rx] [i, j] := by
   simp only [wSin, List.getD_cons_zero, List.getD_cons_succ, centreSin]
